@@ -569,6 +569,9 @@ def run(tier, seed):
                         inst = "%s: header->%s used by %s" % (fn.cname, fld, how)
                         if ok:
                             rep.ok(rid, inst, "non-NULL fact available", u.where())
+                        elif fld == "path" and _on_dir_stack(fn, M, ld):
+                            # by provenance rather than by function: the header is the one on top of the directory stack
+                            rep.assumed(rid, inst, "A-present:dir_stack.path", LISTED[("end_of_top_dir", "path")] + "; only extract_directory pushes (C10.R6)", u.where())
                         elif (u.src_fn(), fld) in LISTED or (fn.cname, fld) in LISTED:
                             key = (u.src_fn(), fld) if (u.src_fn(), fld) in LISTED else (fn.cname, fld)
                             rep.assumed(rid, inst, "A-present:%s.%s" % key, LISTED[key], u.where())
@@ -577,6 +580,22 @@ def run(tier, seed):
                                           function=fn.cname, obj="%s:%s" % (fld, how))
         rep.extra["nullable_string_uses"] = nuse
     return rep.finish(seed)
+
+
+def _on_dir_stack(fn, M, ld):
+    """is the header whose field `ld` loads a member of the reader's directory stack: reader->dir_stack, or the _next of such a member"""
+    g = fn.defn(M.strip(ld.ops[0], ("bitcast",)))
+    if g is None or g.is_param or g.op != "getelementptr":
+        return False
+    h = g.ops[0]
+    for _ in range(8):
+        if M.match(("load", ("field", "LHAReader", "dir_stack", ANY)), h, {}) is not None:
+            return True
+        e = M.match(("load", ("field", HDR, "_next", ("bind", "h", ANY))), h, {})
+        if e is None or "h" not in e:
+            return False
+        h = e["h"]
+    return False
 
 
 def _string_uses(fn, mod, ld):
